@@ -113,11 +113,12 @@ class Report:
     def finish(self):
         known = [k for k in load_known() if k.get('property') == self.prop]
         known_keys = {(k['rule'], k['construct'], str(k['token'])): k for k in known if k.get('status') == 'known'}
+        floor_errors = []
         for rid, floor in self.floors.items():
             n = sum(1 for o in self.obs.values() if o.rule == rid)
             if n < floor:
-                self.error('rule %s matched %d instance(s), below the floor of %d confirmed by hand '
-                           '(anchors moved or extraction broke)' % (rid, n, floor))
+                floor_errors.append('rule %s matched %d instance(s), below the floor of %d confirmed by hand '
+                                    '(anchors moved or extraction broke)' % (rid, n, floor))
         violations, matched = [], []
         for o in self.obs.values():
             if o.ok:
@@ -128,6 +129,13 @@ class Report:
                 matched.append((o, known_keys[o.key]))
             else:
                 violations.append(o)
+        # a floor miss alone means "the analysis cannot stand" (exit 2); next to a concrete violation it is
+        # reported as a note, because the violation stands on its own
+        if floor_errors and not violations:
+            self.errors.extend(floor_errors)
+        else:
+            for fe in floor_errors:
+                self.note('floor not met: ' + fe)
         out = []
         by_rule = {}
         for o in self.obs.values():
